@@ -1004,7 +1004,6 @@ func c17Pool(c *an.Ctx) {
 	}
 }
 
-
 // errChainExceptions lists the fmt.Errorf calls that format an error value
 // without %w on purpose, confirmed by reading.
 var errChainExceptions = map[string]string{
